@@ -19,6 +19,28 @@ def handle (j : Json) : Json :=
         | [x, y] => let r := fitswcsLinear l (x, y); Json.arr #[ratToJson r.1, ratToJson r.2]
         | _ => Json.null) pts)
     | _ => badRequest "C20"
+  | some "linear_nd" =>
+    -- {"n", "crpix":[..n], "cdelt":[..n], "pc":[[..n]..n], "i", "j", "points":[[..n]..]}: FITS paper I on the two celestial axes, and the
+    -- transform built from the 2x2 block
+    match (do
+        let n ← jNat (← jField j "n")
+        let crpix ← jList jRat (← jField j "crpix")
+        let cdelt ← jList jRat (← jField j "cdelt")
+        let pc ← jList (jList jRat) (← jField j "pc")
+        let i ← jNat (← jField j "i")
+        let k ← jNat (← jField j "j")
+        let pts ← jList (jList jRat) (← jField j "points")
+        pure (n, crpix, cdelt, pc, i, k, pts)) with
+    | some (n, crpix, cdelt, pc, i, k, pts) =>
+      let cr : Nat → Rat := fun a => crpix.getD a 0
+      let cd : Nat → Rat := fun a => cdelt.getD a 1
+      let m : Nat → Nat → Rat := fun r c => (pc.getD r []).getD c 0
+      okJson (listToJson (fun (p : List Rat) =>
+        let pf : Nat → Rat := fun a => p.getD a 0
+        let b := fitswcsLinear (skyLin cr cd m i k) (pf i, pf k)
+        Json.mkObj [("fits", Json.arr #[ratToJson (fitsLinearND n cr cd m pf i), ratToJson (fitsLinearND n cr cd m pf k)]),
+                    ("block", Json.arr #[ratToJson b.1, ratToJson b.2])]) pts)
+    | none => badRequest "C20 linear_nd"
   | some "lonpole" =>
     match jRat (jFieldD j "phi0" Json.null), jRat (jFieldD j "theta0" Json.null), jRat (jFieldD j "lat" Json.null) with
     | some a, some b, some c => okJson (ratToJson (lonpoleDefault a b c))
